@@ -435,6 +435,7 @@ class Ctx:
         self.notes: list[str] = []
         self.info: list[str] = []
         self._cur_rule = ""
+        self.deferred: list[str] = []
 
     # -- rule bookkeeping
     def rule(self, rid: str, text: str) -> None:
@@ -488,7 +489,9 @@ class Ctx:
         r = rule or self._cur_rule
         self.count(what, 0, r)
         if n < minimum:
-            raise AnalysisError(
+            # deferred: a real finding elsewhere takes precedence (a seeded or real regression often
+            # removes the very instances being counted); without findings this fails the run (exit 2)
+            self.deferred.append(
                 f"rule {r}: only {n} {what} found, reviewed minimum is {minimum} — the rule's anchors "
                 f"no longer match the code; refusing to pass vacuously"
             )
@@ -590,7 +593,14 @@ def run_check(pid: str, tier: str, rules: list[t.Callable[[Ctx], None]], explana
         ctx = Ctx(pid, tier, repo)
         for r in rules:
             r(ctx)
-        return finish(ctx, t0, explanation, assumptions)
+        rc = finish(ctx, t0, explanation, assumptions)
+        if rc == 0 and ctx.deferred:
+            for d in ctx.deferred:
+                print(f"ANALYSIS-ERROR property={pid} {d}")
+            return 2
+        for d in ctx.deferred:
+            print(f"  note: {d}")
+        return rc
     except AnalysisError as e:
         print(f"ANALYSIS-ERROR property={pid} {e}")
         return 2
